@@ -1078,7 +1078,25 @@ def query6(ctx) -> List[Ob]:
                 v = strip_cast(v.args[0])
             return A.unparse(v)
 
-        if len(rr) == 1 and len(rrx) == 1 and _ret_text(rrx[0].value).startswith("scc("):
+        # the routine behind the called name: the iterative `scc` of the vendored module (the recursive `sccr`
+        # next to it numbers sibling subtrees with the same indices and splits a loop that is entered twice)
+        def _routine(v):
+            v = strip_cast(v)
+            while isinstance(v, ast.Call) and isinstance(v.func, ast.Name) and v.func.id in ("sorted", "list", "tuple", "iter") and len(v.args) == 1 and not v.keywords:
+                v = strip_cast(v.args[0])
+            if not (isinstance(v, ast.Call) and isinstance(v.func, (ast.Name, ast.Attribute))):
+                return None
+            called = v.func.id if isinstance(v.func, ast.Name) else v.func.attr
+            for imp in [n for n in ast.walk(cs.node) if isinstance(n, ast.ImportFrom)] + [n for n in cs.module.tree.body if isinstance(n, ast.ImportFrom)]:
+                for a in imp.names:
+                    if (a.asname or a.name) == called:
+                        return a.name
+            return called
+
+        routine = _routine(rrx[0].value) if len(rrx) == 1 else None
+        if len(rr) == 1 and len(rrx) == 1 and routine is not None and routine != "scc":
+            out.append(bad("QUERY-6", cs.qualname, key, ctx.where(cs, rr[0]), f"the components come from `{routine}`, not from the audited iterative routine `scc`: the recursive variant hands its visit counter to each subtree by value, so a cycle reached along two branches of the search loses blocks and is never made a loop region"))
+        elif len(rr) == 1 and len(rrx) == 1 and routine == "scc" and isinstance(strip_cast(rrx[0].value), ast.Call):
             out.append(ok("QUERY-6", cs.qualname, key, ctx.where(cs, rr[0]), A.unparse(rr[0].value)[:50], nontrivial=False))
         else:
             out.append(bad("QUERY-6", cs.qualname, key, ctx.where(cs), "compute_scc does not return every component the routine yields"))
